@@ -3,16 +3,17 @@
 every pass of the inner loop ROTATES the free part of d in the plane spanned by d_free and a unit-free direction s that is orthogonal to it and has the same length:
     s = (dredg * d_free - dredsq * gnew_free) / sqrt(gredsq * dredsq - dredg^2),     d_free' = cth * d_free + sth * s,     cth = (1 - t^2)/(1 + t^2),  sth = 2t/(1 + t^2)
 With the invariants  dredsq == ||d_free||^2,  dredg == d_free . gnew_free,  gredsq == ||gnew_free||^2  (dredg and gredsq are recomputed by the code, dredsq is NOT: it stays valid because
-the rotation preserves the length) one gets  s . d_free == 0,  ||s||^2 == ||d_free||^2  and  cth^2 + sth^2 == 1,  hence  ||d'||^2 == ||d||^2: the boundary iteration never changes the length
-of the step it is given (nonlinear real arithmetic on the real formulas).  Together with bundle trsnorm (||d|| <= delta when the conjugate-gradient phase hands over) this bounds the
-step handed to the final clip on the alt path."""
+the rotation preserves the length) one gets  s . d_free == 0,  ||s||^2 == ||d_free||^2  and  cth^2 + sth^2 == 1,  hence  ||d_free'||^2 == ||d_free||^2: a rotation never changes the length of the free part of the step, and it does not touch the fixed part.
+What is claimed here are exactly these facts (the three lemmas and the three scalar invariants, nonlinear real arithmetic on the real formulas).  The bookkeeping of the TOTAL length
+||d||^2 across the joins of the two nested loops (merged polynomial states) stayed `unknown` in both solvers and is not claimed: "||d|| <= delta after the boundary iteration" remains a
+not-decided clause of C12."""
 from pyvc.domains.lincomb import LinCombDomain
 
 T = ['C12']
 
 
 def build(repo):
-    D = LinCombDomain(repo, scalar_facts=True, abstract_at_sumsq=False)
+    D = LinCombDomain(repo, scalar_facts=True, abstract_at_sumsq=False, norm_split=False)
     D.ghost_shapes = {}
     VP = {'xopt': 'lc', 'H': 'mat', 'sl': 'lc', 'su': 'lc', 'd': 'lc', 'gnew': 'lc', 'xbdi': 'xbdi', 'qred': 'real', 'n': 'int', 'nact': 'int'}
     D.contract('d_within_bounds', tags=T, params={k: VP[k] for k in ('d', 'xopt', 'sl', 'su', 'xbdi')}, modifies=[], result='lc', ensures=[], assumed=True,
@@ -23,9 +24,10 @@ def build(repo):
           ('gredsq is the squared length of the free part of gnew:: gredsq == sumsq(gnew[xbdi == 0])', 'C12')]
     D.contract('alt_trust_step', tags=T, params={k: VP[k] for k in ('n', 'xopt', 'H', 'sl', 'su', 'd', 'xbdi', 'nact', 'gnew', 'qred')},
                requires=['n >= 1'], modifies=[], result=None,
-               loops={'for:ii#0': [KEEP], 'for:jj#0': [KEEP] + SC},
-               asserts={'before:d_within_bounds#1': [('(C12) the step handed to the final clip has the length of the step the boundary iteration was given:: sumsq(d) == sumsq(old(d))', 'C12')],
-                        'before:d_within_bounds#2': [('(C12) the step handed to the final clip has the length of the step the boundary iteration was given:: sumsq(d) == sumsq(old(d))', 'C12')]},
+               loops={'for:jj#0': SC},
+               asserts={'after:sredg': [('lemma: the new direction is orthogonal to the free part of the step:: DOT(s[xbdi == 0], d[xbdi == 0]) == 0', 'C12'),
+                                        ('lemma: the new direction has the length of the free part of the step:: sumsq(s[xbdi == 0]) == dredsq', 'C12')],
+                        'after:sdec': [('lemma: (cth, sth) is a point of the unit circle (rational parametrisation by the tangent of the half angle):: cth * cth + sth * sth == 1', 'C12')]},
                ensures=[])
     D.verify_list = ['alt_trust_step']
     return D
